@@ -51,12 +51,31 @@ def read_contracts_from_file(  # noqa: WPS231 too much cognitive complexity
             contracts.append(PolyhedralIoContract.from_strings(**entry["data"]))
             names.append(entry["name"])
         elif entry["type"] == "PolyhedralIoContractCompound":
+            _validate_compound_contract_dict(entry["data"], entry["name"])
             contracts.append(PolyhedralIoContractCompound.from_strings(**entry["data"]))
             names.append(entry["name"])
         else:
             raise ValueError()
 
     return contracts, names
+
+
+def _validate_compound_contract_dict(contract: Any, contract_name: str) -> None:  # noqa: WPS231
+    """Reject a dictionary that cannot be read as a compound contract (lists of alternatives, each a list of strings)."""
+    if not isinstance(contract, dict):
+        raise ContractFormatError("Each contract should be a dictionary")
+    for kw in ("input_vars", "output_vars", "assumptions", "guarantees"):
+        if kw not in contract:
+            raise ContractFormatError(f'Keyword "{kw}" not found in contract {contract_name}')
+        if not isinstance(contract[kw], list):
+            raise ContractFormatError(f'The "{kw}" in contract {contract_name} should be a list')
+    for kw in ("input_vars", "output_vars"):
+        if not all(isinstance(name, str) for name in contract[kw]):
+            raise ContractFormatError(f"The {kw} in contract {contract_name} should be defined as strings")
+    for kw in ("assumptions", "guarantees"):
+        for alternative in contract[kw]:
+            if not isinstance(alternative, list) or not all(isinstance(term, str) for term in alternative):
+                raise ContractFormatError(f"Each alternative of the {kw} in contract {contract_name} should be a list of strings")
 
 
 def write_contracts_to_file(  # noqa: WPS231 too much cognitive complexity
